@@ -159,6 +159,8 @@ def gen_cases(tier, seed):
         c["pre_same"] = c["req"]["by"] == "model" and k % 4 == 2
         # every fifth case: compiled in ONE call together with another design whose sub-module has the same NAME (a different module)
         c["shadow"] = k % 5 == 3
+        # every seventh case: the design is first walked by a read-only HierarchyWalker (a census of its instances), then compiled
+        c["census"] = k % 7 == 5
     return cases
 
 
@@ -353,6 +355,16 @@ def run_case(args):
             except Exception:
                 pass
         b, bmid = build_design(h, req, tag)
+        if case.get("census"):
+            class Census(h.HierarchyWalker):
+                def __init__(self):
+                    super().__init__()
+                    self.count = 0
+
+                def visit_instance(self, inst):
+                    self.count += 1
+                    return super().visit_instance(inst)
+            Census().walk(b)
         decoy = None
         if case.get("shadow"):
             decoy, dmid = build_design(h, dict(req, sized="wl" if req["sized"] != "wl" else ""), tag + "d")
